@@ -322,6 +322,59 @@ def binop(ctx):
                         ib, ims = chain(it_init) if it_init is not None else ({}, [])
                         if [m[0] for m in ims] == ["into_iter"] and converted_args(ib) and len(ix.regions[id(n)]) == len(ix.regions[id(lp)]) + 1:
                             ok = True
+    if left and not ok:
+        # form C: `[first, rest @ ..]` on the arguments; acc = expr(first); for x in <rest, each converted, in order> { acc = op(acc, x) }
+        def slice_parts():
+            """(id bound to the first argument, id bound to the remaining arguments) from a slice pattern on the argument list"""
+            for n in left:
+                pats = []
+                if n.get("k") == "match" and is_local(n["scrut"], p_args):
+                    pats = [arm["pat"] for arm in n["arms"]]
+                elif n.get("k") in ("letexpr", "let") and "init" in n and is_local(n["init"], p_args):
+                    pats = [n["pat"]]
+                for p_ in pats:
+                    while p_.get("k") in ("pref", "pderef"):
+                        p_ = p_["pat"]
+                    if p_.get("k") == "pslice" and len(p_["before"]) == 1 and "mid" in p_ and not p_.get("after"):
+                        fb, rb = binding_of_pat(p_["before"][0]), binding_of_pat(p_["mid"])
+                        if fb and rb:
+                            yield fb[1], rb[1]
+
+        def rest_converted(e, rest_id, depth=0):
+            """e enumerates expr(st, x) for every x of `rest`, in order"""
+            b_, ms_ = chain(e)
+            if [m[0] for m in ms_] not in ([], ["iter"], ["into_iter"], ["iter", "copied"], ["iter", "cloned"]) or peel(b_).get("k") != "local" or depth > 2:
+                return False
+            bl = psanorm.built_by_loop(ix, defs, peel(b_)["id"])
+            if bl is not None:
+                it, pat, el, lp = bl
+                ib, ims = chain(it)
+                eb = pat_bindings(pat)
+                return is_local(ib, rest_id) and [m[0] for m in ims] in ([], ["iter"], ["into_iter"]) and len(eb) == 1 and converts(el, eb[0][1])
+            el = psanorm.elementwise(ix, defs, b_)
+            if el is not None:
+                ib, ims = chain(el["src"])
+                eb = pat_bindings(el["pat"])
+                return is_local(ib, rest_id) and [m[0] for m in ims] in ([], ["iter"], ["into_iter"]) and len(eb) == 1 \
+                    and converts(psanorm.tail_value(el["elem"]) if el["form"] == "map" else el["elem"], eb[0][1])
+            return False
+        for first_id, rest_id in slice_parts():
+            for n in left:
+                if n.get("k") == "assign" and peel(n["l"]).get("k") == "local":
+                    acc = peel(n["l"])["id"]
+                    r = peel(n["r"])
+                    lp = ix.enclosing(n, ("for",))
+                    if not (r.get("k") == "callv" and is_local(r["f"], p_op) and len(r["args"]) == 2 and is_local(r["args"][0], acc) and lp is not None):
+                        continue
+                    lb = pat_bindings(lp["pat"])
+                    acc_init = simple_let_init(defs, acc)
+                    uncond = len(ix.regions[id(n)]) == len(ix.regions[id(lp)]) + 1 and not any(x.get("k") in ("break", "continue") for x in walk(lp["body"]))
+                    others = [x for x in ix.nodes if x.get("k") == "assign" and is_local(x["l"], acc) and x is not n]
+                    if len(lb) == 1 and acc_init is not None and converts(acc_init, first_id) and uncond and not others:
+                        ib, ims = chain(lp["iter"])
+                        direct = is_local(ib, rest_id) and [m[0] for m in ims] in ([], ["iter"], ["into_iter"]) and converts(r["args"][1], lb[0][1])
+                        if direct or (is_local(r["args"][1], lb[0][1]) and rest_converted(lp["iter"], rest_id)):
+                            ok = True
     ctx.inst("R14.1", "bin_op:left-assoc-fold", ok, f["span"], "left-associative operators must be folded left to right over the arguments in order")
     ok2 = False
     other = regions.get("other") if regions else None
